@@ -24,7 +24,9 @@ Definition edits_of (m : msgix) : list edit :=
 
 Definition all_edits : list edit := ENone :: flat_map edits_of msgs.
 
-Definition claims := [ClKey KA; ClKey KB; ClKey KE; ClJunk; ClEmpty].
+Definition aliases := [AUnknownField; AReordered; ANonMinimal].
+Definition claims := [ClKey KA; ClKey KB; ClKey KE; ClJunk; ClEmpty] ++
+                     flat_map (fun k => map (ClAlias k) aliases) [KA; KB; KE].
 Definition fsigs := [FsBy KE SmGood; FsBy KE SmOtherStatic; FsBy KE SmNoPrefix;
                      FsBy KA SmOtherStatic; FsBy KB SmOtherStatic; FsJunk; FsEmpty].
 Definition forges : list forge :=
@@ -68,10 +70,15 @@ Proof.
     cbn in H; try discriminate H; cbn; in_list.
 Qed.
 
+Lemma claim_in : forall c, In c claims.
+Proof. intros c. destruct c as [[]| | |[] []]; cbn; in_list. Qed.
+
 Lemma wf_forge_in : forall f, wf_forge f = true -> In f forges.
 Proof.
-  intros f H. destruct f as [[] c s]; destruct c as [[]| |]; destruct s as [[] []| |];
-    cbn in H; try discriminate H; cbn; in_list.
+  intros [i c s] H. unfold forges. apply in_flat_map. exists i. split; [destruct i; cbn; auto|].
+  apply in_flat_map. exists c. split; [apply claim_in|].
+  apply in_map_iff. exists s. split; [reflexivity|].
+  unfold wf_forge in H. cbn [f_sig] in H. destruct s as [[] []| |]; cbn in H; try discriminate H; cbn; in_list.
 Qed.
 
 Lemma wf_fault_in : forall sc f, wf_fault sc f = true -> In f all_faults.
